@@ -1,6 +1,8 @@
 package main
 
 import (
+	"fmt"
+	"os"
 	"go/ast"
 	"go/constant"
 	"go/token"
@@ -494,6 +496,20 @@ func checkLoopBounds(p *Program, r *Result, ba *boundAnalysis, fn *ssa.Function,
 			for _, v := range []ssa.Value{cond.X, cond.Y} {
 				if ri := raw[v]; ri != nil && ri.intrinsic {
 					declared = true
+				}
+			}
+			// ... or a bound computed from it before the loop (end := start + declared)
+			if !declared {
+				e := newSumForm()
+				linearize(cond.X, 1, e, 0)
+				linearize(cond.Y, -1, e, 0)
+				for k := range e.coef {
+					if os.Getenv("MCAPVET_DEBUG") != "" {
+						fmt.Fprintf(os.Stderr, "DBG %s atom %s raw=%v\n", fn.Name(), e.vals[k].String(), raw[e.vals[k]])
+					}
+					if ri := raw[e.vals[k]]; ri != nil && ri.intrinsic {
+						declared = true
+					}
 				}
 			}
 		}
